@@ -29,7 +29,7 @@ REAL_WALL_LIMIT = 120.0  # seconds a single task may hold the baton before we ca
 
 class Task:
     __slots__ = ("sim", "name", "fn", "sem", "state", "wake_pred", "deadline", "timed_out", "exc",
-                 "thread", "killed", "seq", "prio", "last_deliv", "kind")
+                 "thread", "killed", "seq", "prio", "last_deliv", "kind", "hard_exited")
 
     def __init__(self, sim, name, fn, kind="task"):
         self.sim, self.name, self.fn, self.kind = sim, name, fn, kind
@@ -41,6 +41,7 @@ class Task:
         self.exc = None
         self.killed = False
         self.prio = 0
+        self.hard_exited = False
         self.last_deliv = {}
         self.thread = threading.Thread(target=self._run, name="sim:" + name, daemon=True)
 
